@@ -1,0 +1,35 @@
+//go:build verif
+
+// Round 7: the closure of CompressHandler (C10 C14 C15 C17 C18) - possible since the engine runs conditional defers (the two
+// `defer gw.Close()` / `defer fw.Close()` sit in a switch inside the Accept-Encoding loop). Comment-only file.
+// Assumed library contracts: .trusted/r7.spec (ServeHTTP of the wrapped handler, gzip / flate constructors and Close).
+
+package http_api
+
+// What a compressResponseWriter is made of never changes after the composite literal that builds it (SSA sweep).
+//@ immutable compressResponseWriter.Writer, compressResponseWriter.ResponseWriter, compressResponseWriter.Hijacker
+
+// CompressHandler$1: the wrapped handler h runs EXACTLY once, with the request it was given; the writer it sees is either the writer given
+// (no gzip / deflate among the accepted encodings) or a compressResponseWriter around THAT writer whose compressor writes to that writer;
+// and when it saw a compressor, that compressor is closed AFTER the handler returned (otherwise the tail of the response - the gzip
+// trailer - never reaches the client), and nothing is closed otherwise.
+//@ func CompressHandler$1(w http.ResponseWriter, r *http.Request)
+//@   props C10 C14 C15 C17 C18
+//@   requires w != nil && r != nil && h != nil
+//@   ensures[handler-runs-once] r7CHServed == old(r7CHServed) + 1 && r7CHServedH == old(h) && r7CHServedR == r
+//@   ensures[writer-or-wrapper-around-it] r7CHServedW == w || (dyntype(r7CHServedW) == typetag("*compressResponseWriter") && unbox(r7CHServedW, "*compressResponseWriter") != nil &&
+//@        unbox(r7CHServedW, "*compressResponseWriter").ResponseWriter == w && unbox(r7CHServedW, "*compressResponseWriter").Writer != nil)
+//@   ensures[gzip-compressor-writes-to-the-writer] (r7CHServedW != w && dyntype(unbox(r7CHServedW, "*compressResponseWriter").Writer) == typetag("*compress/gzip.Writer")) ==>
+//@        hGzTarget(unbox(unbox(r7CHServedW, "*compressResponseWriter").Writer, "*compress/gzip.Writer")) == w
+//@   ensures[deflate-compressor-writes-to-the-writer] (r7CHServedW != w && dyntype(unbox(r7CHServedW, "*compressResponseWriter").Writer) == typetag("*compress/flate.Writer")) ==>
+//@        r7FlTarget(unbox(unbox(r7CHServedW, "*compressResponseWriter").Writer, "*compress/flate.Writer")) == w
+//@   ensures[a-gzip-or-a-deflate-compressor] r7CHServedW != w ==> (dyntype(unbox(r7CHServedW, "*compressResponseWriter").Writer) == typetag("*compress/gzip.Writer") ||
+//@        dyntype(unbox(r7CHServedW, "*compressResponseWriter").Writer) == typetag("*compress/flate.Writer"))
+//@   ensures[compressor-closed-after-the-handler] r7CHServedW != w ==> r7CHClosedAfter == r7CHServed
+//@   ensures[gzip-compressor-closed] (r7CHServedW != w && dyntype(unbox(r7CHServedW, "*compressResponseWriter").Writer) == typetag("*compress/gzip.Writer")) ==>
+//@        r7CHClosedGz == unbox(unbox(r7CHServedW, "*compressResponseWriter").Writer, "*compress/gzip.Writer")
+//@   ensures[deflate-compressor-closed] (r7CHServedW != w && dyntype(unbox(r7CHServedW, "*compressResponseWriter").Writer) == typetag("*compress/flate.Writer")) ==>
+//@        r7CHClosedFl == unbox(unbox(r7CHServedW, "*compressResponseWriter").Writer, "*compress/flate.Writer")
+//@   loop 0
+//@     invariant[writer-untouched] w == old(w)
+//@     invariant[nothing-served-yet] r7CHServed == old(r7CHServed)
